@@ -1249,7 +1249,16 @@ fn copy_prop_reverse(
     {
         let mut changed = true;
         let mut cycle_detected = false;
-        while changed {
+        // Without a cycle every chain has at most `src_to_dst.len()` links, so the closure is
+        // reached within that many rounds. Stop as soon as a cycle is detected: entries leading
+        // into a cycle would otherwise keep changing forever.
+        let mut rounds_left = src_to_dst.len() + 1;
+        while changed && !cycle_detected {
+            if rounds_left == 0 {
+                cycle_detected = true;
+                break;
+            }
+            rounds_left -= 1;
             changed = false;
             src_to_dst.clone().iter().for_each(|(src, dst)| {
                 if let Some(next_dst) = src_to_dst.get(dst) {
